@@ -606,6 +606,7 @@ func writeEvidence(vd, prop, tier string, seed int64, spec *checkSpec, results [
 			"harnesses":                     harnesses,
 			"inconclusive":                  inconclusive,
 			"stubs_used":                    spec.Stubs,
+			"translator_validation":         translatorValidation,
 		},
 		"assumptions": []string{
 			"go/ssa (x/tools v0.29.0) is a faithful lowering of the repository's Go source; the symgo interpreter implements SSA semantics (cross-checked on every run by replaying sampled paths natively: traces_validated_against_impl)",
